@@ -52,8 +52,8 @@ HARNESSES = [
     # ---- JIT memory contents
     H('fill', 'h_fill_shrink', B1 + 'shrink keeping 1..2 granules and freeing 0..2 inside the first 4 granules, any pattern, any byte of those 256', unwind=6, unwindset=FILL),
     H('fill', 'h_write_fn', B1 + 'span of 1..3 granules inside the first 4, truncated to 1..256 bytes by the write function, fill on', unwind=6, unwindset=FILL),
-    H('fill', 'h_fill_release', B1 + 'release of a span of 1..2 granules inside the first 4, any pattern, any byte', unwind=6, unwindset=FILL, mem=6, timeout=2400, tiers=T),
-    H('fill', 'h_fill_release_dual', 'same, dual mapping', unwind=6, unwindset=FILL, mem=6, timeout=2400, tiers=T),
+    H('fill', 'h_fill_release', B1 + 'release of a span of 1..2 granules inside the first 4, any pattern, any byte', unwind=6, unwindset=FILL, mem=6, timeout=3000, tiers=T),
+    H('fill', 'h_fill_release_dual', 'same, dual mapping', unwind=6, unwindset=FILL, mem=6, timeout=3000, tiers=T),
     H('fill', 'h_write', 'write(span, offset, src, size): span of 1..2 granules inside the first 4, any offset, sizes 0..24 (copied) or > 128 (refused), any source byte', unwind=6, unwindset=MEM.replace('memcpy.0:10', 'memcpy.0:5'), mem=6, timeout=2400, tiers=T),
     # ---- reset
     H('reset', 'h_reset_hard', '1..2 blocks of 64 granules in any states of I, any list order / tree shape', unwind=6),
